@@ -223,8 +223,9 @@ def tellPending (s : State α) (x : α) : State α :=
 def removeUnfinished (s : State α) : State α :=
   { s with pending := [], lossesC := s.losses, xsC := s.xs }
 
+/-- `self.data.update((x, y) for … if x not in self.data)`: a known point keeps its value -/
 def dataSet (d : List (α × List α)) (x : α) (y : List α) : List (α × List α) :=
-  if (dataGet d x).isSome then d.map (fun kv => if kv.1 = x then (x, y) else kv) else d ++ [(x, y)]
+  if (dataGet d x).isSome then d else d ++ [(x, y)]
 
 def sortList (l : List α) : List α := l.foldl (fun acc x => sinsert x acc) []
 
